@@ -218,6 +218,8 @@ class Executor:
         self.fid_counter = itertools.count(1)
         self.oid_counter = itertools.count(1)
         self.lazy_tab = {}            # (oid, key) -> Value   (global across paths: inputs are immutable)
+        self.parent = {}              # child oid -> (parent oid, key)
+        self.max_block_visits = 0     # 0 = unbounded; otherwise paths revisiting a block more often are cut ("loopbound")
         self.havoc_memo = {}
         self.havoc_calls = {}         # oid -> (callee, args)
         self.n_checks = 0
@@ -336,7 +338,9 @@ class Executor:
             return Sym(z3.BitVec(n, INT_BITS[ty]), ty)
         if ty == "()":
             return UNIT
-        return Lazy(next(self.oid_counter), ty, label, lz.depth + (1 if key[0] in ("deref", "field", "vfield") else 0), dict(lz.tags))
+        ch = Lazy(next(self.oid_counter), ty, label, lz.depth + (1 if key[0] in ("deref", "field", "vfield") else 0), dict(lz.tags))
+        self.parent[ch.oid] = (lz.oid, key)
+        return ch
 
     def discr(self, st, v):
         """discriminant term (BitVec 64) of an enum value"""
@@ -378,7 +382,7 @@ class Executor:
         key, path, val = self._walk(st, fr, pl)
         if want_ref:
             if key is None:
-                return RefV(val)
+                return val if isinstance(val, Str) else RefV(val)
             return Ref(key, path)
         return val
 
@@ -402,6 +406,8 @@ class Executor:
                     inner, isref = strip_ref(val.ty)
                     val = self.lazy_child(st, val, ("deref",), inner if isref else "?", "*")
                     key, path = None, ()
+                elif isinstance(val, Str):
+                    key, path = None, ()        # &'static str: the constant stands for both the pointer and the data
                 else:
                     raise Inconclusive(f"deref of {val!r} in {fr.fn.name}")
                 variant = None
@@ -881,6 +887,11 @@ class Executor:
                 raise Inconclusive("SetDiscriminant")
             elif k == "goto":
                 fr.bb, fr.ip = s[1], 0
+                if self.max_block_visits:
+                    vk = ("visits", fr.fid, s[1])
+                    st.aux[vk] = st.aux.get(vk, 0) + 1
+                    if st.aux[vk] > self.max_block_visits:
+                        return Outcome("loopbound", None, st, info=(fr.fn.name, s[1]))
             elif k == "drop":
                 fr.bb, fr.ip = s[2]["return"], 0
             elif k == "return":
@@ -1012,6 +1023,18 @@ class Executor:
                 return None
             # 4 havoc
             res = self.havoc(st, callee, args, dty)
+        if isinstance(res, tuple) and res and res[0] == "inline":
+            # a hook redirects the call to another MIR body (e.g. log!() -> the registered logger closure)
+            _, fn2, args2 = res
+            nf = Frame(fn2, next(self.fid_counter), dest=None, ret_bb=ret_bb)
+            for (p, _), v in zip(fn2.params, args2):
+                st.store[(nf.fid, p)] = v
+            if dest is not None:
+                self.write_place(st, fr, dest, UNIT)
+            st.stack.append(nf)
+            if self.report is not None:
+                self.report.fn(fn2)
+            return None
         if isinstance(res, tuple) and res and res[0] == "panic":
             return Outcome("panic", res[1], st, info=(fr.fn.name, fr.bb))
         if ret_bb is None:
@@ -1034,6 +1057,11 @@ class Executor:
         if dest is not None:
             self.write_place(st, fr, dest, res)
         fr.bb, fr.ip = ret_bb, 0
+        if self.max_block_visits:
+            vk = ("visits", fr.fid, ret_bb)
+            st.aux[vk] = st.aux.get(vk, 0) + 1
+            if st.aux[vk] > self.max_block_visits:
+                return Outcome("loopbound", None, st, info=(fr.fn.name, ret_bb))
         return None
 
     def havoc(self, st, callee, args, dty):
@@ -1064,6 +1092,29 @@ class _Done:
     """wrapper to carry a finished outcome through the work list"""
     def __init__(self, out):
         self.out = out
+
+
+def derives_from(ex, v, oid, depth=0, st=None):
+    """does value v structurally contain the lazy object `oid` or one of its (transitive) children?"""
+    if depth > 12:
+        return False
+    if isinstance(v, Ref) and st is not None:
+        try:
+            return derives_from(ex, ex._read_key(st, v.key, v.path), oid, depth + 1, st)
+        except Exception:
+            return False
+    if isinstance(v, Lazy):
+        o = v.oid
+        while o is not None:
+            if o == oid:
+                return True
+            o = ex.parent.get(o, (None,))[0]
+        return False
+    if isinstance(v, Agg):
+        return any(derives_from(ex, f, oid, depth + 1, st) for f in v.fields if f is not None)
+    if isinstance(v, RefV):
+        return derives_from(ex, v.v, oid, depth + 1, st)
+    return False
 
 
 class Infeasible(Exception):
